@@ -256,12 +256,12 @@ MPRUN_INVS = ["ExactlyOnce", "RunCompletes", "TermCorrect", "CyclicRejected", "A
 MPRUN_PROPS = ["NoReexec", "Quiescent", "FinishedStays", "RefinesAbs"]
 
 
-def mprun_consts(N, calls, fail=0, dags=False, cyclic=False, memo=True, guard=True, reset=True, sweep=True, leaf="mixed", special=None, memokey="flag"):
+def mprun_consts(N, calls, fail=0, dags=False, cyclic=False, memo=True, guard=True, reset=True, sweep=True, leaf="mixed", special=None, memokey="flag", maxedges=None):
     b = lambda x: "TRUE" if x else "FALSE"
     return {"N": N, "Memo": b(memo), "CycleGuard": b(guard), "ResetOnUnwind": b(reset), "Sweep": b(sweep),
             "LeafKey": '"%s"' % leaf, "MaxStack": N + 2, "MaxCalls": calls, "MaxFail": fail, "MaxSpecial": fail if special is None else special,
             "MemoKey": '"%s"' % memokey,
-            "OnlyDags": b(dags), "OnlyCyclic": b(cyclic)}
+            "OnlyDags": b(dags), "OnlyCyclic": b(cyclic), "MaxEdges": N * N if maxedges is None else maxedges}
 
 
 def run_mprun(tag, consts, report=True, workers=None, timeout=1500, liveness=False):
@@ -543,7 +543,7 @@ def check_C14(tier):
         variants = [core.SEED % 12]
     else:
         jobs = [("n3_cyclic_calls2", mprun_consts(3, 2, cyclic=True), {"workers": 8}),
-                ("n4_cyclic_calls1", mprun_consts(4, 1, cyclic=True), {"workers": 8})]
+                ("n4_cyclic_calls1_edges5", mprun_consts(4, 1, cyclic=True, maxedges=5), {"workers": 8})]
         variants = [(core.SEED + i) % 12 for i in (0, 1)]
     chk.cov["rule"] = ("TLC enumerates every program on N commands whose reference graph has a cycle (self-loops, 2-cycles, longer, tails, "
                        "separate acyclic parts; every edge direct or listed) and every history of run()/result(c); each terminal state is "
